@@ -11,12 +11,14 @@ from tie.framework import TieBroken, g_bool, g_list, g_opt, g_pair, g_str, g_Z, 
 PROP = "C17"
 IMPORTS = "From JV Require Import Lib.Base Model.C17Subcmd Spec.C17SubcmdSpec Corr.C17Judge."
 RULE = ("seeded random subcommand trees (1-3 levels of subcommands, 1-4 subcommands per level, required or optional, "
-        "int options and a --cfg option at any level, dest 'subcommand'/'cmd'/'sel', names reused across levels) x "
+        "int options and a --cfg option at any level, dest 'subcommand'/'cmd'/'sel', names reused across levels and, in a third of "
+        "the trees, drawn also from attribute/method names of Namespace: get, items, keys, values, update, clone, pop, as_dict) x "
         "~12 inputs per tree through parse_args (options, --cfg strings and subcommand tokens at every level), "
         "parse_object, parse_string, each without or with a generated environment (values for options of inner levels on most "
         "paths) whose reading is switched on by default_env=True in the constructor, by the root.default_env setter AFTER the tree "
         "is built, or by parse_*(env=True), or is switched OFF (setter after a default_env=True build, or never on) with the "
-        "variables present all the same; inputs "
+        "variables present all the same; and parse_env(<explicit mapping>) with os.environ clean or holding other variables of the "
+        "same prefix (decoys); inputs "
         "select, omit, mis-name, or give settings for several subcommands; a case is non-trivial when some channel "
         "names a subcommand or gives a section for one; distinct = distinct (tree, input)")
 TRUSTED = [
@@ -28,22 +30,20 @@ TRUSTED = [
 ]
 ASSUMPTIONS = [
     "options are --k type=int with int defaults; config values are nested objects with int/str leaves (no explicit null, no lists)",
-    "no default_config_files, no subcommand aliases, no PREFIX_CFG environment variable, names are lower-case without '_' or '.'",
+    "no default_config_files, no subcommand aliases, no PREFIX_CFG environment variable, names are lower-case without '.' (one subcommand name, as_dict, has a '_')",
     "option names, subcommand names, dest and 'cfg' are pairwise different inside one parser (wf_parser)",
 ]
 EXHAUSTIVE = {"quick": False, "thorough": False}
 FINDING_CLASSES = {1: "falsy-subcommand-name-keeps-all-sections", 2: "cfg-naming-other-subcommand-drops-settings",
                    3: "env-mapping-ignored-by-handle-subcommands"}
 
-# Which tree is under test?  coq/Corr/C17Judge.v has one judge per model variant (Model/C17Subcmd.v `variant`):
-#   judge              the pinned tree, findings 1 and 2 guarded (classes 1, 2)
-#   judge_fixed_falsy  after fixes/C17-falsy-subcommand-name-keeps-all-sections.patch  (no class 1)
-#   judge_fixed_cfg    after fixes/C17-cfg-naming-other-subcommand-drops-settings.patch (no class 2)
-#   judge_fixed_both   after both (no finding class left: any recurrence is a VIOLATION)
-# translate() reads the two `if` tests of get_subcommands the patches touch from the tree under test
-# (framework.REPO) and picks the judge; every other shape of those lines selects the pinned-tree judge, so a
-# changed line is judged against the original behaviour and shows up as a failing input.  Set C17_JUDGE in the
-# environment (or edit JUDGE_OVERRIDE) to force one.
+# Which tree is under test?  The model (Model/C17Subcmd.v) takes a `variant` {fx_falsy; fx_cfg; fx_envmap}: one flag per
+# fix patch of a C17 finding; coq/Corr/C17Judge.v: `judge_v <variant>` judges against that model and drops the finding
+# class of every fix the tree has (a recurrence is then a VIOLATION).  translate() reads from the tree under test
+# (framework.REPO): the two `if` tests of get_subcommands the first two patches touch, and whether handle_subcommands
+# hands an `env=` mapping to subparser.parse_env (third patch); every other shape of those lines selects the unfixed
+# behaviour, so a changed line is judged against it and shows up as a failing input.  Set C17_JUDGE in the environment
+# (a Gallina expression, e.g. 'judge_v {| fx_falsy := true; fx_cfg := true; fx_envmap := false |}') to force one.
 JUDGE = "judge"
 JUDGE_OVERRIDE = os.environ.get("C17_JUDGE")
 _FIXED_REMOVE_TEST = "subcommand and len(subcommand_keys) > 1 and (fail_no_subcommand or require_single)"
@@ -445,13 +445,14 @@ def shrink(case):
 META = {
     "level_text": "Rocq theorems (coq/Properties/C17.v) over a Gallina model of the parse pipeline, for subcommand trees of ANY depth "
                   "and width and every input of the modelled space (structured argv with options, --cfg values and subcommand tokens at "
-                  "every level; parse_object; parse_string; with or without environment parsing and any environment). "
+                  "every level; parse_object; parse_string; with or without environment parsing and any environment; parse_env(mapping) with "
+                  "any mapping and any content of os.environ). "
                   "C17_one_selected / C17_one_selected_or_falsy / C17_required_selected / C17_optional_missing_gives_none: a successful "
                   "parse has, at every level, the name of a declared subcommand under the subcommand key, that subcommand's complete "
                   "section (every declared option has a value), a well-selected section below it, and no section of any other "
                   "subcommand; an unselected optional subcommand leaves no section at all. C17_required_missing_fails: a required "
                   "subcommand with nothing given is rejected with the documented error. C17_command_line_name_wins and "
-                  "C17_config_name_wins prove the first two clauses of the selection rule at the top level: the token on the command "
+                  "C17_config_name_wins, C17_environment_name_wins (a parse_env mapping naming a declared subcommand) prove the explicit clauses of the selection rule at the top level: the token on the command "
                   "line wins whatever --cfg values/environment name, and the subcommand key of a parse_object/parse_string config wins "
                   "whatever the environment names or which sections carry settings. C17_fixed_one_selected (+2 corollaries): with "
                   "fixes/C17-falsy-subcommand-name-keeps-all-sections.patch the full statement holds without guard. The remaining "
@@ -460,10 +461,12 @@ META = {
                   "on the inputs) are judged per case inside Coq against the real parsers, not proved. The model (get_subcommands, "
                   "handle_subcommands, __call__, _load_env_vars, apply_config, the second get_subcommand pass in apply_parsing_links, "
                   "validate) is tied to real parsers built from generated trees of 1-3 subcommand levels with 1-4 subcommands each.",
-    "level_note": "Two recorded findings (known_findings/C17.txt), each with a fix patch in fixes/ and a model variant + judge for the "
-                  "repaired tree (the harness recognises the tree by the two `if` tests of get_subcommands and picks the judge): a falsy "
-                  "subcommand name keeps all sections (guard dest_truthy, C17_falsy_name_refuted); a --cfg value naming another "
-                  "subcommand drops given settings (judge class 2, C17_cfg_names_other_refuted). Not proved: Spec.select below the top "
+    "level_note": "Three recorded findings (known_findings/C17.txt), each with a fix patch in fixes/ and a model variant flag; the "
+                  "harness recognises which fixes the tree under test has and passes the variant to the judge: a falsy subcommand name "
+                  "keeps all sections (guard dest_truthy, C17_falsy_name_refuted; fixed in /repo cc83855); a --cfg value naming another "
+                  "subcommand drops given settings (judge class 2, C17_cfg_names_other_refuted; fixed in /repo efb952a); "
+                  "parse_env(mapping) lets the sub-parsers read os.environ (judge class 3 = osenv_clean, "
+                  "C17_env_mapping_decoy_refuted; open, fixes/C17-env-mapping-ignored-by-handle-subcommands.patch). Not proved: Spec.select below the top "
                   "level / for the settings-given clause, and the values - exercised by the correspondence only. Failing parses are "
                   "only compared as 'failed' (the error kind is not tied). Not modelled: default_config_files, aliases, explicit null, "
                   "PREFIX_CFG variables, non-int options. Trusted: Coq kernel/VM, the model's faithfulness outside the generated cases, "
